@@ -124,9 +124,15 @@ Definition res_eqb (a b : result) : bool :=
 Definition ids (l : list req) : list N := map r_id l.
 Definition N_list_eqb (a b : list N) : bool := list_eqb N.eqb a b.
 
+(* no download can fail: no scripted failure and every request lies inside the pack *)
+Definition no_load_failure (e : env) (reqs : list req) : bool :=
+  match e_loadfail e with [] => forallb (fun b => r_off b + r_len b <=? e_size e) reqs | _ => false end.
+
 (* oracle: 0 holds; 2 a blob was called back twice / out of order / not requested; 3 success although a
    requested blob got no callback; 4 a blob whose fallback copy is loadable was reported as error;
-   5 plaintext delivered without error is not the blob's content, or an unavailable blob reported ok; 6 panic *)
+   5 plaintext delivered without error is not the blob's content, or an unavailable blob reported ok; 6 panic;
+   7 no download failed, yet an intact (or fallback-loadable) blob was reported as error; 8 callbacks continued
+   after the callback returned an error, or that error was swallowed *)
 Definition oracle_code (c : case) : nat :=
   let sorted := sort (c_reqs c) in
   let n := length (c_cbs c) in
@@ -141,6 +147,14 @@ Definition oracle_code (c : case) : nat :=
                                     | 1%N => mem_req (fst p) (e_good (c_env c)) || fb_ok (c_env c) (fst (snd p))
                                     | _ => false
                                     end) (combine (firstn n sorted) (c_cbs c))) then 5%nat
+    else if no_load_failure (c_env c) (c_reqs c)
+            && negb (forallb (fun p => negb (snd (snd p) =? 0)%N
+                                       || negb (mem_req (fst p) (e_good (c_env c)) || fb_ok (c_env c) (fst (snd p))))
+                             (combine (firstn n sorted) (c_cbs c))) then 7%nat
+    else if negb (match e_cbfail (c_env c) with
+                  | Some j => Nat.leb n (S j) && (negb (Nat.ltb j n) || res_eqb (c_res c) RErr)
+                  | None => true
+                  end) then 8%nat
     else 0%nat
   end.
 
